@@ -361,6 +361,16 @@ def CYCLES(K=0, horizon=7, ops=None):
     return spec(f'CYCLES[K{K}]', devs, horizon, ops, K)
 
 
+def CYCLES3(K=0, horizon=7, ops=None):
+    '''A machine whose cycle time depends on the part in hand (the cycle_time getter is overridden: parts of low quality
+    take three times as long) and one-shot offsets requested from outside at any moment, also shortly before a failure.'''
+    wo = {'x': [1, 1.5, 3]}
+    devs = [src('S', 1, qualities=[1, 0.25, 0.75, 0]), proc('M1', ['S'], 1, wo=wo, slow=3, auto_repair='x'), sink('K', ['M1']), maint(1)]
+    if ops is None:
+        ops = [('offset', 'M1', 0.5), ('offset', 'M1', -0.5), ('fail', 'M1', 0), ('shutdown', 'M1'), ('restore', 'M1')]
+    return spec(f'CYCLES3[K{K}]', devs, horizon, ops, K)
+
+
 def CYCLES2(K=0, horizon=6, ops=None):
     devs = [src('S', 0.5), hand('H', ['S'], 1, cycles=[1, 0, 2], offsets=[0.5, 0, -1]),
             proc('P', ['H'], 1, offsets=[0, 1, -0.5]), sink('K', ['P'], 1)]
